@@ -205,7 +205,9 @@ func (d *dataRecord) PrepareRecord() error {
 }
 
 func (d *dataRecord) GetBuffer() []byte {
-	if len(d.buffer) == d.len || d.isDecoding {
+	// A nil buffer has not been encoded yet, even if the record length is 0: the elements
+	// of a zero-length record must be encoded (and checked) once too.
+	if (d.buffer != nil && len(d.buffer) == d.len) || d.isDecoding {
 		return d.buffer
 	}
 	d.buffer = make([]byte, d.len)
